@@ -204,10 +204,16 @@ func (c *LocalActionsCache) readCache(key string) (*ActionMetadata, bool) {
 	return m, ok
 }
 
-func (c *LocalActionsCache) writeCache(key string, val *ActionMetadata) {
+// writeCacheOnce remembers the value unless another goroutine remembered one for the key since the cache
+// miss. It returns the remembered value and whether it was written by this call.
+func (c *LocalActionsCache) writeCacheOnce(key string, val *ActionMetadata) (*ActionMetadata, bool) {
 	c.mu.Lock()
+	defer c.mu.Unlock()
+	if m, ok := c.cache[key]; ok {
+		return m, false
+	}
 	c.cache[key] = val
-	c.mu.Unlock()
+	return val, true
 }
 
 // FindMetadata finds metadata for given spec. The spec should indicate for local action hence it
@@ -235,7 +241,7 @@ func (c *LocalActionsCache) FindMetadata(spec string) (*ActionMetadata, bool, er
 		c.debug("No action metadata found in %s", dir)
 		// Remember action was not found
 		verifPoint("ac-write", spec, nil, nil)
-		c.writeCache(spec, nil)
+		c.writeCacheOnce(spec, nil)
 		// Do not complain about the action does not exist (#25, #40).
 		// It seems a common pattern that the local action does not exist in the repository
 		// (e.g. Git submodule) and it is cloned at running workflow (due to a private repository).
@@ -245,7 +251,10 @@ func (c *LocalActionsCache) FindMetadata(spec string) (*ActionMetadata, bool, er
 	var meta ActionMetadata
 	if err := yaml.Unmarshal(b, &meta); err != nil {
 		verifPoint("ac-write", spec, nil, err)
-		c.writeCache(spec, nil) // Remember action was invalid
+		// Remember action was invalid. When another file found it at the same time, the error was already reported
+		if m, first := c.writeCacheOnce(spec, nil); !first {
+			return m, true, nil
+		}
 		msg := strings.ReplaceAll(err.Error(), "\n", " ")
 		return nil, false, fmt.Errorf("could not parse action metadata in %q: %s", dir, msg)
 	}
@@ -256,7 +265,9 @@ func (c *LocalActionsCache) FindMetadata(spec string) (*ActionMetadata, bool, er
 
 	c.debug("New metadata parsed from action %s: %v", dir, &meta)
 	verifPoint("ac-write", spec, nil, nil)
-	c.writeCache(spec, &meta)
+	if m, first := c.writeCacheOnce(spec, &meta); !first {
+		return m, true, nil
+	}
 	return &meta, false, nil
 }
 
